@@ -3,12 +3,12 @@ NEXT Next
 CONSTANTS
   NS = 3
   NT = 2
-  Vals <- MCValsThree
+  Vals <- MCValsNeg
   TagA <- MCTagA
   TagB <- MCTagB
   R = 2
   WMax = 1
-  Tables <- TablesAgg
+  Tables <- TablesTop
   SelMod = 1
   Sel = 0
   PreAvg = TRUE
@@ -16,13 +16,6 @@ CONSTANTS
   AnchorVals <- NoAnchor
 INVARIANTS
   TypeOK
-  DigestIsDefinition
-  Rule0Exact
-  Rule1Exact
-  Rule2Exact
-  Rule3Exact
-  ReduciblePairs
-  DefinitionsSane
   TopRanksByValue
   Export
 CHECK_DEADLOCK FALSE
